@@ -28,8 +28,10 @@ VARIABLES l,        \* next line
           tlb,      \* node -> highest term seen in any event of the node
           vlc,      \* node -> number of successful VerifyLeader calls
           rdst,     \* rid -> [node, rterm, pc, ci, vl, tl]
+          fsmx,     \* [pos: node -> FSM position in this life of the node (last index applied or restored),
+                    \*  at: index -> term of the command some node's FSM applied there]
           bad
-tvars == <<l, front, pend, invd, acks, obs, srtSeen, mfsm, tlb, vlc, rdst, bad>>
+tvars == <<l, front, pend, invd, acks, obs, srtSeen, mfsm, tlb, vlc, rdst, fsmx, bad>>
 
 Max2(a, b) == IF a > b THEN a ELSE b
 Ev == Trace[l]
@@ -64,18 +66,20 @@ WellFormed(o) == /\ \A k \in Keys(o.regs) : RVer(o.regs, k) <= o.n
 
 TInit == /\ l = 1 /\ TLCSet(1, 0) /\ TLCSet(2, {}) /\ front = 0 /\ pend = <<>> /\ invd = {} /\ acks = {} /\ obs = {}
          /\ srtSeen = <<>> /\ mfsm = <<>> /\ tlb = <<>> /\ vlc = <<>> /\ rdst = <<>> /\ bad = {}
+         /\ fsmx = [pos |-> <<>>, at |-> <<>>]
 
 TReset == /\ Is("reset") /\ Step /\ front' = 0 /\ pend' = <<>> /\ invd' = {} /\ acks' = {} /\ obs' = {}
           /\ srtSeen' = <<>> /\ mfsm' = <<>> /\ tlb' = <<>> /\ vlc' = <<>> /\ rdst' = <<>> /\ bad' = bad
+          /\ fsmx' = [pos |-> <<>>, at |-> <<>>]
 
 (* ------------------------------ client history ------------------------------ *)
 CInv == /\ Is("c.inv") /\ Step
         /\ pend' = Put(pend, Ev.op, [kind |-> Ev.kind, key |-> Ev.key, val |-> Ev.val, lvl |-> Ev.lvl, lb |-> front])
         /\ invd' = IF Ev.kind = "w" THEN invd \cup {<<Ev.key, Ev.val>>} ELSE invd
-        /\ UNCHANGED <<front, acks, obs, srtSeen, mfsm, tlb, vlc, rdst, bad>>
+        /\ UNCHANGED <<front, acks, obs, srtSeen, mfsm, tlb, vlc, rdst, bad, fsmx>>
 
 CFail == /\ Is("c.fail") /\ Step /\ pend' = Drop(pend, Ev.op)
-         /\ UNCHANGED <<front, invd, acks, obs, srtSeen, mfsm, tlb, vlc, rdst, bad>>
+         /\ UNCHANGED <<front, invd, acks, obs, srtSeen, mfsm, tlb, vlc, rdst, bad, fsmx>>
 
 COkW == /\ Is("c.ok") /\ Ev.op \in DOMAIN pend /\ pend[Ev.op].kind = "w" /\ Step
         /\ LET p == pend[Ev.op]
@@ -87,7 +91,7 @@ COkW == /\ Is("c.ok") /\ Ev.op \in DOMAIN pend /\ pend[Ev.op].kind = "w" /\ Step
                      ELSE IF \E o \in obs : ~SeesAck(o, a) THEN Flag(FALSE, "earlier-read-missed-or-contradicts-acked-write")
                      ELSE bad
         /\ pend' = Drop(pend, Ev.op)
-        /\ UNCHANGED <<invd, obs, srtSeen, mfsm, tlb, vlc, rdst>>
+        /\ UNCHANGED <<invd, obs, srtSeen, mfsm, tlb, vlc, rdst, fsmx>>
 
 COkR == /\ Is("c.ok") /\ Ev.op \in DOMAIN pend /\ pend[Ev.op].kind = "r" /\ Step
         /\ LET p == pend[Ev.op]
@@ -101,7 +105,7 @@ COkR == /\ Is("c.ok") /\ Ev.op \in DOMAIN pend /\ pend[Ev.op].kind = "r" /\ Step
                      ELSE IF \E o2 \in obs : ~Compat(o, o2) THEN Flag(FALSE, "reads-not-one-history")
                      ELSE bad
         /\ pend' = Drop(pend, Ev.op)
-        /\ UNCHANGED <<invd, acks, srtSeen, mfsm, tlb, vlc, rdst>>
+        /\ UNCHANGED <<invd, acks, srtSeen, mfsm, tlb, vlc, rdst, fsmx>>
 
 (* ------------------------------ node events ------------------------------ *)
 NodeT(t) == tlb' = Put(tlb, Ev.inst, Max2(Get0(tlb, Ev.inst), t))
@@ -109,33 +113,46 @@ NodeT(t) == tlb' = Put(tlb, Ev.inst, Max2(Get0(tlb, Ev.inst), t))
 FsmReset == /\ Is("fsm.reset") /\ Step
             /\ srtSeen' = Put(srtSeen, Ev.inst, {}) /\ mfsm' = Put(mfsm, Ev.inst, 0)
             /\ rdst' = [r \in {x \in DOMAIN rdst : rdst[x].node # Ev.inst} |-> rdst[r]]
+            /\ fsmx' = [fsmx EXCEPT !.pos = Put(@, Ev.inst, 0)]
             /\ UNCHANGED <<front, pend, invd, acks, obs, tlb, vlc, bad>>
 
+(* Cluster.tla ApplyOne / InstallSnapshot / Restart on the real FSM: within one life of a node the FSM        *)
+(* position only moves forward (an index is applied once; a snapshot is installed only ahead of it), and   *)
+(* what is applied at an index is the same entry on every node (StateMachineSafety, seen at the FSMs)      *)
 FsmApply == /\ (Is("fsm.apply") \/ Is("fsm.restore") \/ Is("fsm.signal")) /\ Step
             /\ mfsm' = Put(mfsm, Ev.inst, Max2(Get0(mfsm, Ev.inst), Ev.idx))
             /\ NodeT(IF Is("fsm.signal") THEN 0 ELSE Ev.term)
-            /\ UNCHANGED <<front, pend, invd, acks, obs, srtSeen, vlc, rdst, bad>>
+            /\ IF Is("fsm.signal") THEN UNCHANGED <<fsmx, bad>>
+               ELSE LET pos == Get0(fsmx.pos, Ev.inst) IN
+                    /\ fsmx' = [pos |-> Put(fsmx.pos, Ev.inst, Max2(pos, Ev.idx)),
+                                at |-> IF Is("fsm.apply") /\ Ev.idx \notin DOMAIN fsmx.at THEN Put(fsmx.at, Ev.idx, Ev.term) ELSE fsmx.at]
+                    /\ bad' = IF Is("fsm.apply") /\ Ev.idx <= pos THEN Flag(FALSE, "fsm-applied-index-at-or-below-its-position")
+                              ELSE IF Is("fsm.restore") /\ Ev.idx < pos THEN Flag(FALSE, "snapshot-restored-behind-fsm-position")
+                              ELSE IF Is("fsm.apply") /\ Ev.idx \in DOMAIN fsmx.at /\ fsmx.at[Ev.idx] # Ev.term
+                                   THEN Flag(FALSE, "different-entries-applied-at-one-index")
+                              ELSE bad
+            /\ UNCHANGED <<front, pend, invd, acks, obs, srtSeen, vlc, rdst>>
 
 SrtStore == /\ Is("srt.store") /\ Step
             /\ srtSeen' = Put(srtSeen, Ev.inst, GetS(srtSeen, Ev.inst) \cup {Ev.t})
             /\ NodeT(Ev.t)
-            /\ UNCHANGED <<front, pend, invd, acks, obs, mfsm, vlc, rdst, bad>>
+            /\ UNCHANGED <<front, pend, invd, acks, obs, mfsm, vlc, rdst, bad, fsmx>>
 
 VerifyDone == /\ Is("vl.done") /\ Step
               /\ vlc' = IF Ev.ok THEN Put(vlc, Ev.inst, Get0(vlc, Ev.inst) + 1) ELSE vlc
-              /\ UNCHANGED <<front, pend, invd, acks, obs, srtSeen, mfsm, tlb, rdst, bad>>
+              /\ UNCHANGED <<front, pend, invd, acks, obs, srtSeen, mfsm, tlb, rdst, bad, fsmx>>
 
 LrBegin == /\ Is("lr.begin") /\ Step
            /\ rdst' = Put(rdst, Ev.rid, [node |-> Ev.inst, rterm |-> Ev.rterm, pc |-> "chk", ci |-> 0, vl |-> 0, tl |-> 0])
            /\ NodeT(Ev.rterm)
-           /\ UNCHANGED <<front, pend, invd, acks, obs, srtSeen, mfsm, vlc, bad>>
+           /\ UNCHANGED <<front, pend, invd, acks, obs, srtSeen, mfsm, vlc, bad, fsmx>>
 
 (* Cluster!NoStuckRead on the real values: the wait timed out although Raft had already handed *)
 (* every entry up to the read index to the FSM goroutine (AppliedIndex >= target)               *)
 LrGone == /\ (Is("lr.upgrade") \/ Is("lr.abort")) /\ Step /\ rdst' = Drop(rdst, Ev.rid)
           /\ bad' = IF Is("lr.abort") /\ Ev.why = "fsmtimeout"
                     THEN Flag(~(Ev.applied >= Ev.target), "lin-read-stuck-although-read-index-applied") ELSE bad
-          /\ UNCHANGED <<front, pend, invd, acks, obs, srtSeen, mfsm, tlb, vlc>>
+          /\ UNCHANGED <<front, pend, invd, acks, obs, srtSeen, mfsm, tlb, vlc, fsmx>>
 
 Known == Ev.rid \in DOMAIN rdst
 R == rdst[Ev.rid]
@@ -144,45 +161,45 @@ Adv(pc2, ci2, vl2, tl2) == rdst' = Put(rdst, Ev.rid, [R EXCEPT !.pc = pc2, !.ci 
 (* passed the strong-read-term check and the leader check: LrCheck = "index" for some value   *)
 (* strongReadTerm held, i.e. the read's term was stored by a strong read on this node          *)
 LrLeader == /\ Is("lr.leader") /\ Step
-            /\ IF ~Known THEN UNCHANGED <<rdst, bad>>
+            /\ IF ~Known THEN UNCHANGED <<rdst, bad, fsmx>>
                ELSE /\ Adv("leader", 0, 0, 0)
                     /\ bad' = Flag(R.pc = "chk" /\ \E sv \in GetS(srtSeen, R.node) \cup {0} : LrCheck(R.rterm, sv, TRUE) = "index",
                                    "lin-read-not-upgraded-in-term-without-strong-read")
-            /\ UNCHANGED <<front, pend, invd, acks, obs, srtSeen, mfsm, tlb, vlc>>
+            /\ UNCHANGED <<front, pend, invd, acks, obs, srtSeen, mfsm, tlb, vlc, fsmx>>
 
 LrIndex == /\ Is("lr.index") /\ Step
-           /\ IF ~Known THEN UNCHANGED <<rdst, bad>>
+           /\ IF ~Known THEN UNCHANGED <<rdst, bad, fsmx>>
               ELSE /\ Adv("verify", Ev.ci, Get0(vlc, R.node), 0)
                    /\ bad' = Flag(R.pc = "leader", "read-index-out-of-order")
-           /\ UNCHANGED <<front, pend, invd, acks, obs, srtSeen, mfsm, tlb, vlc>>
+           /\ UNCHANGED <<front, pend, invd, acks, obs, srtSeen, mfsm, tlb, vlc, fsmx>>
 
 (* leadership confirmed AFTER the read index was taken: a VerifyLeader succeeded on the node in between *)
 LrVerified == /\ Is("lr.verified") /\ Step
-              /\ IF ~Known THEN UNCHANGED <<rdst, bad>>
+              /\ IF ~Known THEN UNCHANGED <<rdst, bad, fsmx>>
                  ELSE /\ Adv("term", R.ci, R.vl, Get0(tlb, R.node))
                       /\ bad' = Flag(R.pc = "verify" /\ (VerifyQuorum => Get0(vlc, R.node) > R.vl), "served-without-quorum-check-after-read-index")
-              /\ UNCHANGED <<front, pend, invd, acks, obs, srtSeen, mfsm, tlb, vlc>>
+              /\ UNCHANGED <<front, pend, invd, acks, obs, srtSeen, mfsm, tlb, vlc, fsmx>>
 
 (* the node had already shown a higher term before the verification finished => the re-check must fail *)
 LrTermOk == /\ Is("lr.termok") /\ Step
-            /\ IF ~Known THEN UNCHANGED <<rdst, bad>>
+            /\ IF ~Known THEN UNCHANGED <<rdst, bad, fsmx>>
                ELSE /\ Adv("wait", R.ci, R.vl, R.tl)
                     /\ bad' = Flag(R.pc = "term" /\ LrTermOK(R.rterm, Max2(R.tl, R.rterm)), "term-changed-but-read-continued")
-            /\ UNCHANGED <<front, pend, invd, acks, obs, srtSeen, mfsm, tlb, vlc>>
+            /\ UNCHANGED <<front, pend, invd, acks, obs, srtSeen, mfsm, tlb, vlc, fsmx>>
 
 LrWait == /\ Is("lr.wait") /\ Step
-          /\ IF ~Known THEN UNCHANGED <<rdst, bad>>
+          /\ IF ~Known THEN UNCHANGED <<rdst, bad, fsmx>>
              ELSE /\ Adv("waiting", R.ci, R.vl, R.tl)
                   /\ bad' = Flag(R.pc = "wait" /\ Ev.target = R.ci, "wait-target-is-not-the-read-index")
-          /\ UNCHANGED <<front, pend, invd, acks, obs, srtSeen, mfsm, tlb, vlc>>
+          /\ UNCHANGED <<front, pend, invd, acks, obs, srtSeen, mfsm, tlb, vlc, fsmx>>
 
 LrServed == /\ Is("lr.served") /\ Step
-            /\ IF ~Known THEN UNCHANGED <<rdst, bad>>
+            /\ IF ~Known THEN UNCHANGED <<rdst, bad, fsmx>>
                ELSE /\ rdst' = Drop(rdst, Ev.rid)
                     /\ bad' = Flag(R.pc = "waiting" /\ LrMayServe(Get0(mfsm, R.node), R.ci), "served-before-fsm-reached-read-index")
-            /\ UNCHANGED <<front, pend, invd, acks, obs, srtSeen, mfsm, tlb, vlc>>
+            /\ UNCHANGED <<front, pend, invd, acks, obs, srtSeen, mfsm, tlb, vlc, fsmx>>
 
-Note == /\ Is("note") /\ Step /\ UNCHANGED <<front, pend, invd, acks, obs, srtSeen, mfsm, tlb, vlc, rdst, bad>>
+Note == /\ Is("note") /\ Step /\ UNCHANGED <<front, pend, invd, acks, obs, srtSeen, mfsm, tlb, vlc, rdst, bad, fsmx>>
 
 TNext == TReset \/ CInv \/ CFail \/ COkW \/ COkR \/ FsmReset \/ FsmApply \/ SrtStore \/ VerifyDone
          \/ LrBegin \/ LrGone \/ LrLeader \/ LrIndex \/ LrVerified \/ LrTermOk \/ LrWait \/ LrServed \/ Note
